@@ -6,6 +6,11 @@ ENV = "GOFLAGS=-mod=mod GOPROXY=off GOSUMDB=off GOTOOLCHAIN=local GOWORK=off"
 
 # id -> (clause decided, level_note (assumed / trusted / NOT decided), technique, design_ref)
 CLAIMED = {
+    "C04": (
+        "Panic CONTAINMENT for the kinds of panic whose presence is visible in the code (not the absence of all panics): every guard frame defers its recover before any unprotected dynamic call and records an error on the recovered path (statements before the defer are analysed as unprotected); the walker, the type checker and the compiler each have a clause for every node kind, so their `default: panic` is unreachable for trees of the module's kinds, including trees rewritten by user visitors; in the unguarded region — library functions reachable from Parse, Compile, Eval, Run, vm.Run, (*VM).Run and the option closures without entering a guard frame, plus the guard frames' handlers — there is no explicit panic other than such a default and no single-value type assertion that is not dominated by a successful test of the same assertion; every return of an API function yields (zero, error) or (value, nil). Each clause is a necessary condition: breaking it gives a concrete input on which an API call panics or returns a value together with an error.",
+        "Trusted: go/types, go/ssa, the VTA call graph (with the option closures added as roots, because `op(config)` is an edge no call graph resolves). NOT decided, and said so in the evidence: termination; value-dependent run-time panics in the unguarded region (index and slice bounds, nil dereference including method calls on a nil reflect.Type — DESIGN K3 was not built —, reflect argument ranges, stack exhaustion); panics raised by user visitors; that every recorded first error is returned (R4.5 not built).",
+        "guard-frame recognition + dispatcher exhaustiveness + unguarded-region census of explicit panics and hard type assertions over the call graph + syntactic result discipline",
+        "DESIGN.md §4 C04, §3 E5 (K1, K2, K4; not K3)"),
     "C05": (
         "Structural clauses decided for EVERY program the compiler can emit from a tree of the module's node kinds (structural induction over the tree, one template per path through each kind's code-generation scheme): opcode table = VM handlers = disassembler cases, with agreeing operand width and jump direction; every emitted instruction carries the operand kind and width its handler decodes; every forward placeholder is patched exactly once, every backward jump targets a label captured earlier; writer and reader offset arithmetic agree (affine evaluation of emit, patchJump, calcBackwardJump, VM.arg, the fetch step and the jump handlers: landing = patch point resp. label) and byte order agrees between encode, VM.arg and the disassembler; no instruction pops below its template's entry depth, all paths agree on depth at joins, each template leaves exactly its kind's effect; Begin/End scopes balanced on all paths, scope variables stored before read; conversions to the 16-bit operand are dominated by a range check; makeConstant returns the index of the element it appended or found. This is the whole well-formedness/balance statement except path feasibility and operand values.",
         "Trusted: go/types; the template extractor (path enumeration of the scheme methods with closure inlining) and the instruction-signature extractor, both of which fail closed (an unrecognised construct is an undecided obligation = failure). Assumed: trees contain only the module's node kinds; all template paths are taken as feasible (over-approximation). Not decided: that an operand designates the intended constant.",
@@ -49,7 +54,6 @@ NOT_APPLICABLE = {
     "C01": "conformance of evaluated results to the language definition for every expression and environment value is a statement about run-time values; the structural clauses of DESIGN.md §4 C01 (dispatcher exhaustiveness, operand order of templates, short-circuit shape) were not built. " + _NOT_BUILT,
     "C02": "observational equivalence of optimized and unoptimized programs quantifies over all environment values; the guard analysis of the rewrite sites (DESIGN.md §4 C02) was not built, and its planned fixes were therefore not applied. " + _NOT_BUILT,
     "C03": "type soundness over all environment values of a type needs an abstract interpretation of checker and VM over reflect types that is out of reach; the agreement rules of DESIGN.md §4 C03 were not built. " + _NOT_BUILT,
-    "C04": "absence of panics and of non-termination for every input depends on value-dependent panics (bounds, nil, reflect argument ranges) and on termination, which no sound static argument in reach bounds; the containment census of DESIGN.md §3 E5 (guard frames, K1–K4) was not built, so not even the structural clause is claimed",
     "C11": "round-trip equality of printing and parsing for every tree, and agreement with a reference grammar for every token sequence, are statements about parser results; the binding-power table cross-check of DESIGN.md §4 C11 was not built. " + _NOT_BUILT,
     "C12": "exactness of lexed string and number values for every literal is a statement about run-time values of the scanner; the classification-order rules of DESIGN.md §4 C12 were not built. " + _NOT_BUILT,
     "C13": "that the reported position is that of the offending occurrence depends on which node fails at run time; the location-propagation rules of DESIGN.md §4 C13 were not built. " + _NOT_BUILT,
